@@ -11,6 +11,7 @@ import (
 	"fmt"
 	"os"
 	"sort"
+	"strconv"
 	"strings"
 	"sync"
 	"time"
@@ -137,7 +138,7 @@ func c06QuickCase(seed uint64, k int) c06Case {
 	}
 	fam := mutationFamily(len(it.Data))
 	m := fam[rng.Intn(len(fam))]
-	return c06Case{Seed: it, Mut: m, Format: f, Force: rng.Intn(50) == 0 && f != "probe", CLI: rng.Intn(200) == 0}
+	return c06Case{Seed: it, Mut: m, Format: f, Force: rng.Intn(4) == 0 && f != "probe", CLI: rng.Intn(200) == 0}
 }
 
 // thorough: the whole family, enumerated: every seed x every mutation x {own formats, probe} x force,
@@ -184,9 +185,9 @@ func (e *c06Enum) Case(k int) c06Case {
 		if v < len(fs) {
 			return c06Case{Seed: it, Mut: m, Format: fs[v], CLI: k%997 == 0}
 		}
-		// forced decoding of corrupt input loops/allocates without bound in many decoders (inconclusive by
-		// design, but each costs a worker restart): force only every 7th mutation
-		return c06Case{Seed: it, Mut: m, Format: fs[v-len(fs)], Force: (k/variants)%7 == 0}
+		// (forced decoding used to be limited to every 7th mutation: caff, bplist and protobuf looped or
+		// allocated without bound under force and each such case cost a worker restart; repaired in /repo)
+		return c06Case{Seed: it, Mut: m, Format: fs[v-len(fs)], Force: true}
 	}
 	k -= len(fam) * variants
 	af := allFormats()
@@ -290,6 +291,15 @@ func c06Main(args []string) {
 	} else {
 		n = 250000
 		get = func(k int) c06Case { return c06QuickCase(run.Seed, k) }
+	}
+	if os.Getenv("C06_SCAN_FORCE") != "" {
+		// development aid: a forced-decoding-only slice (to list the formats that loop / allocate under force)
+		n, _ = strconv.Atoi(os.Getenv("C06_SCAN_FORCE"))
+		get = func(k int) c06Case {
+			c := c06QuickCase(run.Seed, k)
+			c.Force = c.Format != "probe"
+			return c
+		}
 	}
 	run.Count("family:cases", int64(n))
 	isoRun(run, isoSpec{
